@@ -844,6 +844,51 @@ fn c18_after_kill(case: &SrvCase, at: usize, st: &mut Stats) -> (Option<Violatio
     (None, busy, sig)
 }
 
+/// "Full house": 8..10 connections open and readable (unread input on each), possibly unsent
+/// output and unanswered requests, a further client waiting on the listener, and then the kill.
+/// With 10 + listener + kill switch ready at once the readiness batch is completely full.
+fn full_house(rng: &mut Rng) -> SrvCase {
+    let mut case = SrvCase {
+        cap_c2s: 212_992,
+        cap_s2c: *rng.pick(&[300usize, 4096, 212_992]),
+        quarter: rng.chance(1, 2),
+        kill_switch: true,
+        limit: None,
+        scripts: Vec::new(),
+        steps: Vec::new(),
+        kill_at: None,
+    };
+    let n = *rng.pick(&[10usize, 10, 10, 9, 8]);
+    for c in 0..n {
+        let (script, _) = build_script(rng, c, 51200, false, 2, false, 100);
+        case.scripts.push(script);
+        case.steps.push(SStep::Connect(c));
+        case.steps.push(SStep::Poll { key: 0, eintr: false });
+    }
+    // some complete requests first (yielded, maybe answered), so that there is in-flight state
+    let early = rng.below(4);
+    for c in 0..early.min(n) {
+        case.steps.push(SStep::Send(c, 1 << 20));
+        case.steps.push(SStep::Poll { key: rng.next() | 1, eintr: false });
+        if rng.chance(1, 2) {
+            case.steps.push(SStep::RespondAll { code: 200, pad: rng.below(600) });
+        }
+    }
+    // every connection gets unread input
+    for c in 0..n {
+        let len = case.scripts[c].len().max(1);
+        case.steps.push(SStep::Send(c, if rng.chance(1, 2) { rng.range(1, len) } else { 1 << 20 }));
+    }
+    // the extra client(s)
+    let extra = rng.range(1, 2);
+    for k in 0..extra {
+        case.scripts.push(b"GET /c99r0 HTTP/1.1\r\n\r\n".to_vec());
+        case.steps.push(SStep::Connect(n + k));
+    }
+    case.kill_at = Some(case.steps.len());
+    case
+}
+
 impl Prop for C18 {
     fn id(&self) -> &'static str {
         "C18"
@@ -869,6 +914,9 @@ impl Prop for C18 {
         true
     }
     fn gen(&self, rng: &mut Rng, _tier: Tier, index: u64) -> J {
+        if rng.chance(1, 6) {
+            return full_house(rng).to_json();
+        }
         let profile = *rng.pick(&[Profile::WellBehaved, Profile::Hostile, Profile::Capacity, Profile::Routing]);
         let mut case = gen_srv_case(rng, profile, "C18");
         case.kill_switch = true;
